@@ -1036,9 +1036,9 @@ func (it *interp) fault(e *gspec.Expr, errPos Pos, panicOff int) {
 		}
 		it.st.FaultsFired++
 		switch f.Kind {
-		case "err":
+		case "err", "err_join":
 			it.addErr(f.Msg, errPos, it.curRuleName(), true, "code")
-		case "panic_err":
+		case "panic_err", "panic_join":
 			panic(panicSignal{val: &vrt.InjectedError{ID: f.ID, Nth: n, Msg: f.Msg}, off: panicOff, rule: it.curRuleName()})
 		case "panic_str":
 			panic(panicSignal{val: f.Msg, off: panicOff, rule: it.curRuleName()})
